@@ -120,6 +120,8 @@ _built = {}
 def build_harness(release=True):
     """release: True (harness release profile) | False (debug) | "asrepo" (the release settings of the workspace under test:
     opt-level 3, lto, one codegen unit -- stack use is measured under the settings the crates ship with)"""
+    if release is True and os.environ.get("VERIF_HARNESS_PROFILE"):
+        release = os.environ["VERIF_HARNESS_PROFILE"]          # e.g. "checked": overflow checks and debug assertions on (exploration, DESIGN 10.4)
     key = release if isinstance(release, str) else ("release" if release else "debug")
     if key in _built:
         return _built[key]
